@@ -12,12 +12,15 @@ import (
 	"verif/harness/spec"
 )
 
-const ruleC03 = "every path the C02 generators produce that Parse accepts (rendered ASTs in canonical/free spelling, 1-3 character/token mutations of them, boundary integers) x documents (directed at the unmutated AST, free, empty containers, null and scalar roots), float64 and json.Number decoding, with the function catalogue (functions that fail on some inputs). " +
+const ruleC03 = "every path the C02 generators produce that Parse accepts (rendered ASTs in canonical/free spelling, 1-3 character/token mutations of them, boundary integers) x documents (directed at the unmutated AST, free, empty containers, null and scalar roots; one in ten with non-JSON Go values in place of leaves, sub-containers or the root: pointers, typed nils, uncomparable types), float64 and json.Number decoding, with the function catalogue (functions that fail on some inputs). " +
 	"Oracle: (non-empty result, nil) or (nil, ErrorMemberNotExist|ErrorTypeUnmatched|ErrorFunctionFailed); ErrorFunctionFailed only if a user function returned an error during the call; where PEGI can convert the accepted string to an AST, SPEC selects nothing <=> the library fails. " +
 	"Non-trivial: the path has >=1 non-root step and the document is a container. Distinct = distinct (path, document, mode)."
 
 func drawC03(rt *rapid.T) *Case {
-	g := gen.NewG(rt, gen.PathOpts{Funcs: true, RootOmit: true, BigInts: true, FuncPct: 30})
+	dockind := gen.Uniform(rt, "dockind", 20)
+	opaque := dockind == 2 || dockind == 3
+	// non-JSON documents get filter-heavy paths (comparisons are where Go values of arbitrary type hurt)
+	g := gen.NewG(rt, gen.PathOpts{Funcs: true, RootOmit: true, BigInts: true, FuncPct: 30, OperandFuncPct: 15, FilterHeavy: opaque})
 	p := g.Path()
 	var text, fam string
 	switch k := gen.Uniform(rt, "textkind", 10); {
@@ -29,11 +32,14 @@ func drawC03(rt *rapid.T) *Case {
 		text, fam = g.MutateText(gen.Render(p, gen.Canon).Text), gen.FamMutGen
 	}
 	var d *gen.DNode
-	switch k := gen.Uniform(rt, "dockind", 20); {
+	switch k := dockind; {
 	case k == 0:
 		d = gen.Null()
 	case k == 1:
 		d = g.Leaf()
+	case k < 4:
+		// "every source value": not everything a caller passes was decoded from JSON
+		d = g.Opaquify(g.Doc(p))
 	default:
 		d = g.Doc(p)
 	}
@@ -87,6 +93,9 @@ func checkC03(c *Case, st *Stats) string {
 	case map[string]interface{}, []interface{}:
 	default:
 		root = "scalar"
+		if spec.IsOpaque(doc) {
+			root = "non-JSON value"
+		}
 	}
 	st.Class("root:" + root)
 	// cross-check "matches nothing <=> error" with SPEC whenever the accepted string converts to an AST
